@@ -85,6 +85,8 @@ def one_store(rng, workdir: Path, rec, k):
     extras = [n for n in ('vx_simple', 'vx_species', 'vx_modes') if rng.random() < 0.6]
     if rng.random() < 0.3:
         extras.append('vx_optfirst')
+    if rng.random() < 0.25:
+        extras.append('vx_allopt')       # a set a trajectory may leave entirely unset
     if not extras and rng.random() < 0.8:
         extras = [rng.choice(['vx_species', 'vx_modes', 'vx_simple'])]
     shape = rng.choice(['prefix', 'gapped', 'per-field', 'full', 'single'])
